@@ -57,6 +57,8 @@ def obs_obj(o, ver, s0):
     for s in (False, True):
         for m in (False, True):
             r["json%d%d" % (s, m)] = jsonitems(o.as_json(sort=s, minimal=m), s)
+    # iteration order of the unsorted documents, kept apart from their content
+    r["korder"] = [[txt(k) for k in o.as_json(minimal=m)] for m in (False, True)]
     return r
 
 
